@@ -1,6 +1,7 @@
 """C16, HTML half -- scanner, matchers, balance functions and attribute parser are
 total and report only well-formed ranges.  `run_html(ctx)` / `replay_html(ctx, obj)`
 are called from harness/props/c16.py."""
+import copy
 import glob
 import hashlib
 import json
@@ -260,7 +261,7 @@ def exception_name(s, pos, on):
     with user_limit():
         for f in (match, balanced_outward, balanced_inward):
             try:
-                f(s, pos, hu.OPT_SETS[on])
+                f(s, pos, copy.deepcopy(hu.OPT_SETS[on]))
             except Exception as e:  # noqa: BLE001
                 out.append('%s: %s' % (f.__name__, type(e).__name__))
     return ', '.join(out) or 'none this time'
